@@ -21,7 +21,8 @@ ASSUMPTIONS = [
 # monitor classes reported by OnsCheck.monitor_step
 CLASSES = {1: "unauthorised-record-change", 3: "expiry-not-the-blocks-bought", 4: "sub-name-invariant-broken",
            5: "failed-transaction-left-a-trace", 6: "two-records-for-one-name",
-           7: "name-on-sale-without-its-owners-sell-transaction"}
+           7: "name-on-sale-without-its-owners-sell-transaction",
+           8: "sub-name-does-not-expire-with-its-parent"}
 KNOWN = {11: "C20.purchase_misses_uncommitted_sub"}
 
 
@@ -118,9 +119,9 @@ def run(ctx):
     cov = ctx.coverage
     cov.update({
         "evaluations": rep["txs"], "distinct_nontrivial": rep["distinct"],
-        "rule": "corpus/C20.json (replay of the fixed finding C20.expiry_blocks_ge_2p63 with expected refusals) + 8 directed histories (uncommitted sub-name vs purchase; look-alike names n/xn/nx/nn/an with sub-names; block count "
+        "rule": "corpus/C20.json (replay of the fixed finding C20.expiry_blocks_ge_2p63 with expected refusals) + 10 directed histories (uncommitted sub-name vs purchase; look-alike names n/xn/nx/nn/an with sub-names; block count "
                 ">= 2^63 refused; expiry and re-purchase; listing -> expiry -> expired-name purchase -> stranger offers the old price, with "
-                "its neighbours: listing cancelled before expiry, renewed and bought live once; inputs only Validate rejects) + seeded random histories over 6 accounts (5 funded, 1 poor), 12 names that are "
+                "its neighbours: listing cancelled before expiry, renewed and bought live once; inputs only Validate rejects; two parents with 3+1 and 2 committed sub-names renewed, then sends to every sub-name past the old expiry height) + seeded random histories over 6 accounts (5 funded, 1 poor), 12 names that are "
                 "prefixes/suffixes of each other and sub-/sub-sub-names, 5 invalid names, 5 option sets; the generator looks at the "
                 "observed registry so that ~70% of signers are the current owner and offers straddle the asking/base price; "
                 "distinct = distinct (operation, outcome, registry size)",
